@@ -1,10 +1,53 @@
-"""C02 — thresholds and the refactoring alarm."""
+"""C02 — length thresholds and the refactoring alarm are applied consistently."""
+import z3
+
 ID = "C02"
 LEVEL = "proof"
 U = "codelimit.common.utils:"
 FUNCTIONS = [
     U + "make_profile", U + "make_count_profile", U + "get_style_for_measurement", U + "get_emoji_for_measurement",
+    U + "format_unit", U + "format_measurement",
+    "codelimit.common.CheckResult:CheckResult.add", "codelimit.common.CheckResult:CheckResult.report",
+    "codelimit.common.LanguageTotals:LanguageTotals.add",
+    "codelimit.commands.check:check_file", "codelimit.commands.check:check_command",
+    "codelimit.common.report.Report:Report.all_report_units_sorted_by_length_asc",
+    "codelimit.common.report.format_text:print_findings",
+    "codelimit.common.report.format_markdown:print_findings",
+    "codelimit.common.report.format_markdown:_print_findings_without_repository",
+    "codelimit.common.report.format_markdown:_print_findings_with_repository",
 ]
-TRUSTED = ["pyvc (AST->SMT translation, heap encoding)", "z3 4.8/5.1, cvc5 1.0",
-           "Rich shows the Style/Text it is given; typer.Exit(code) becomes the process status"]
-ASSUMPTIONS = []
+TRUSTED = [
+    "pyvc: AST->SMT translation of the Python subset, Boogie-style heap encoding, loop cut at sidecar invariants",
+    "z3 5.1 (API) first, cvc5 1.0.3 for z3's unknowns",
+    "Rich renders the Style/Text/print arguments it is given; typer.Exit(code) becomes the process exit status",
+    "paper step: check's exit status follows from the proved pieces (only CheckResult.add changes the counters; it adds "
+    "count(cat==3) of the list check_file hands it; that list is exactly the measurements > 30)",
+]
+ASSUMPTIONS = ["Python ints are mathematical integers (exact)"]
+EXPLANATION = ("Every site that applies a length threshold is a function under contract whose postcondition is stated over "
+               "the spec function cat(L) taken from the property statement; the obligations are generated from the real AST.")
+
+
+def lemmas(eng):
+    """C02-agree: the spec function itself partitions the integers as the statement says (sanity of the spec)."""
+    from pyvc.engine import Obligation
+    L = z3.Int("L")
+    cat = z3.If(L <= 15, 0, z3.If(L <= 30, 1, z3.If(L <= 60, 2, 3)))
+    g = z3.And(z3.Implies(L <= 15, cat == 0), z3.Implies(z3.And(16 <= L, L <= 30), cat == 1),
+               z3.Implies(z3.And(31 <= L, L <= 60), cat == 2), z3.Implies(L > 60, cat == 3))
+    return [Obligation("lemma:C02::cat-matches-statement", "lemma:C02", "lemma", [], g, 0,
+                       "cat(L) is easy/verbose/hard/unmaintainable exactly on <=15 / 16..30 / 31..60 / >60")]
+
+MANIFEST = {
+    "category": "proof",
+    "technique": "contract-based deductive verification: pyvc VCs from the real AST, z3/cvc5",
+    "text": "Each of the 16 functions that applies a length threshold or decides the exit status carries a sidecar contract whose "
+            "postcondition is stated over the spec function cat(L) from the statement (and over the ghost output trace for what is "
+            "printed). Obligations (postconditions, loop invariants, call-site conditions, frames) are generated from /repo's AST on "
+            "every run and discharged for all integers and all lists; a failing obligation is reported with its counter-model "
+            "replayed on the real function.",
+    "note": "Trusted: pyvc's translation and heap encoding, z3/cvc5, Rich rendering what it is given, typer turning Exit.code into "
+            "the status, extensionality of count/sum over pointwise-equal predicates, sorted() = ordered permutation. The link from "
+            "the per-function contracts to the whole-program statement about check's exit status is a paper step listed in evidence.",
+    "design_ref": "DESIGN.md §6 C02",
+}
